@@ -203,13 +203,26 @@ func init() {
 	props["C07"] = &propDef{Level: "exploration", Rule: ruleExpl + "some instance was promoted", Assume: base,
 		Plan: func(t string) []PlanItem { return append(generalPlan(t, false), finePlan("C07", t)...) }}
 	props["C08"] = &propDef{Level: "exploration", Rule: ruleExpl + "a promotion callback ran", Assume: base,
-		Plan: func(t string) []PlanItem { return append(generalPlan(t, true), finePlan("C08", t)...) }}
+		Plan: func(t string) []PlanItem {
+			d := 1
+			if t == "thorough" {
+				d = 2
+			}
+			return append(append(generalPlan(t, true), finePlan("C08", t)...), PlanItem{scnTwoWinnersThenUsurped("two-winners-slow-ondemote-then-usurped-K1", K1), d})
+		}}
 	props["C09"] = &propDef{Level: "exploration", Rule: ruleExpl + "a stop call returned", Assume: base,
 		Plan: func(t string) []PlanItem {
 			return append(append(generalPlan(t, false), connStopPlan(t)...), finePlan("C09", t)...)
 		}}
 	props["C18"] = &propDef{Level: "exploration", Rule: ruleExpl + "a Status() snapshot was taken", Assume: base,
-		Plan: func(t string) []PlanItem { return append(generalPlan(t, true), finePlan("C18", t)...) }}
+		Plan: func(t string) []PlanItem {
+			d := 1
+			if t == "thorough" {
+				d = 2
+			}
+			return append(append(generalPlan(t, true), finePlan("C18", t)...),
+				PlanItem{scnWatchBroken("failover-del3-K1-watch-broken", K1), d})
+		}}
 	props["C19"] = &propDef{Level: "exploration", Rule: ruleExpl + "a promotion callback received a context", Assume: base,
 		Plan: func(t string) []PlanItem { return append(generalPlan(t, true), finePlan("C19", t)...) }}
 }
@@ -387,6 +400,29 @@ func scnTwoRoundsThenDelete(name string, k kfn) *Scenario {
 	s = s.faultFree()
 	s.RandMenu = nil
 	s.DevFrom, s.DevUntil = 500*ms, 770*ms
+	return s
+}
+
+// two-winners-slow-ondemote-then-usurped: as two-rounds-then-outside-delete, but OnDemote
+// takes 150 ms and an outside party writes its own record 15 ms after the two Creates were
+// issued: when the second Create wins as well (the delete moved between the two answers),
+// the second term is lost to the outside record while the first term's OnDemote - which the
+// library runs in front of the second term's OnPromote - is still busy.
+func scnTwoWinnersThenUsurped(name string, k kfn) *Scenario {
+	s := scnTwoRoundsThenDelete(name, k)
+	s.Insts[0].DemoteDur = 150 * ms
+	s.Script = append(s.Script, Item{At: 520*ms + 3*us, Actor: "outside3", Do: "put", Payload: `{"id":"Z","token":"tz2","priority":0}`, Fixed: true})
+	s.Horizon = 750*ms + 5*s.H
+	return s
+}
+
+// failover-del3-watch-broken: B's Watch requests never succeed, so B lives on the periodic
+// check alone; A leads and shuts down with DeleteKey, C (a normal follower, first to be
+// notified) takes over: B has to learn about A first and about C afterwards.
+func scnWatchBroken(name string, k kfn) *Scenario {
+	s := scnFailoverDel(name, k, "A", "B", "C")
+	s.WatchBroken = []string{"B"}
+	s.Horizon += 1200 * ms
 	return s
 }
 
